@@ -54,6 +54,9 @@ def run(ctx):
     if ctx.tier == "thorough":
         ctx.coqchk()
     rng = ctx.rng
+    # header-version negotiation first (it shares Msg.KNOWN_VERSIONS with validate()): afterwards every valid message must still
+    # validate - any damage also shows in the sweeps below
+    U.negotiation_check(ctx, "c13")
     allm = list(product_tx()) + list(product_rx())
     ctx.extra["boundary_product_size"] = len(allm)
     if ctx.tier == "quick":
